@@ -1,13 +1,61 @@
-(* C13 driver.  Each line: records of the ranks 0..P-1 as 7 hex integers each (what sc_stats_compute packed,
-   taken from the trace of the real code), separated by ';'.  Output: the left fold in rank order
-   (inout = record of the next rank ... any tree gives the same by theorem C13_all_trees_agree) and the fold
-   in reverse order, as 7 integers each. *)
+(* C13 driver.  Three kinds of lines.
+   (1) records of the ranks 0..P-1 as 7 hex integers each (what sc_stats_compute packed, taken from the trace of the real
+       code), separated by ';'.  Output: the left fold in rank order (inout = record of the next rank ... any tree gives
+       the same by theorem C13_all_trees_agree) and the fold in reverse order, as 7 integers each.
+   (2) `H <P> <rounds> r0q0 ; r0q1 ; .. ; r1q0 ; ..` - the history of ONE variable: for every round and rank (rank fastest)
+       the calls of that rank as tokens I (init) R (reset) S<hex> (set1) A<hex> (accumulate) P (loop body of compute1), each round
+       ending with the collective compute.  Output: for every round and rank
+       `dirty count sum sumsq min max min_at max_at avg_num avg_den`, separated by ';' (state machine hist_exec of VarModel.v,
+       starting from zeroed structures).
+   (3) `N tok tok ..` - the naming part of one variable on one rank: i<copy>,<group>,<prio> (init_ext / set1_ext) or r<vgp> (reset);
+       `.` marks the end of a round.  Output per round: `owned hasname group prio frees` (frees = number of sc_free calls so far). *)
 let rec_of ws = match List.map z_of_hex ws with
   | [a; b; c; d; e; f; g] -> { cnt = a; sm = b; sq = c; mn = d; mx = e; mnr = f; mxr = g }
   | _ -> failwith "record needs 7 fields"
 let show r = String.concat " " (List.map hex_of_z [r.cnt; r.sm; r.sq; r.mn; r.mx; r.mnr; r.mxr])
+let op_of t = match t.[0] with
+  | 'I' -> OInit | 'R' -> OReset | 'P' -> OPrep1
+  | 'S' -> OSet1 (z_of_hex (String.sub t 1 (String.length t - 1)))
+  | 'A' -> OAcc (z_of_hex (String.sub t 1 (String.length t - 1)))
+  | _ -> failwith ("bad call token " ^ t)
+let rec take n l = if n = 0 then [] else (match l with x :: r -> x :: take (n - 1) r | [] -> failwith "short history")
+let rec drop n l = if n = 0 then l else (match l with _ :: r -> drop (n - 1) r | [] -> failwith "short history")
+let rec chunks n l = if l = [] then [] else take n l :: chunks n (drop n l)
+let show_v s = String.concat " " (List.map hex_of_z [s.v_dirty; s.v_count; s.v_sum; s.v_sq; s.v_min; s.v_max; s.v_minr; s.v_maxr; s.v_avg.qnum; Zpos s.v_avg.qden])
+let history line =
+  match String.split_on_char ';' line with
+  | [] -> "EMPTY"
+  | hd :: cells ->
+    (match words hd with
+     | "H" :: p :: _ :: first ->
+       let p = int_of_string p in
+       let cells = List.map (fun c -> List.map op_of (words c)) (String.concat " " first :: cells) in
+       let rounds = chunks p cells in
+       let init = List.init p (fun _ -> vzero) in
+       String.concat " ; " (List.concat (List.map (fun sts -> List.map show_v sts) (hist_exec init rounds)))
+     | _ -> failwith "bad history header")
+let b2i b = if b then 1 else 0
+let zero_z = z_of_int 0
+let naming toks =
+  let n = ref { n_var = zero_z; n_owned = zero_z; n_group = zero_z; n_prio = zero_z } in
+  let frees = ref 0 in
+  let out = ref [] in
+  List.iter (fun t ->
+    if t = "." then
+      out := Printf.sprintf "%d %d %s %s %d" (b2i (!n.n_owned <> zero_z)) (b2i (!n.n_var <> zero_z)) (hex_of_z !n.n_group) (hex_of_z !n.n_prio) !frees :: !out
+    else if t.[0] = 'r' then begin
+      let vgp = z_of_hex (String.sub t 1 (String.length t - 1)) in
+      if name_reset_frees vgp !n then incr frees;
+      n := name_reset vgp !n end
+    else begin
+      match String.split_on_char ',' (String.sub t 1 (String.length t - 1)) with
+      | [c; g; p] -> n := name_set (z_of_int 5) (z_of_hex c) (z_of_hex g) (z_of_hex p) (z_of_int 7) !n
+      | _ -> failwith ("bad naming token " ^ t) end) toks;
+  String.concat " ; " (List.rev !out)
 let () = iter_lines (fun line ->
   if String.trim line = "" then () else
+  if String.length line > 1 && line.[0] = 'H' && line.[1] = ' ' then print_endline (history line) else
+  if String.length line > 1 && line.[0] = 'N' && line.[1] = ' ' then print_endline (naming (List.tl (words line))) else
   let recs = List.map (fun s -> rec_of (words s)) (List.filter (fun s -> String.trim s <> "") (String.split_on_char ';' line)) in
   match recs with
   | [] -> print_endline "EMPTY"
